@@ -103,3 +103,22 @@ Theorem C06_bounded :
     N.of_nat (length hs) <= start_index ->
     len_buckets st <= 48.
 Proof. exact bounded. Qed.
+
+(* Serialisation (byte-level instance: SHA-256, 32-byte secrets, store.go
+   Encode / NewRevocationStoreFromBytes).  For every sequence of accepted
+   inserts arbitrarily interleaved with encode->decode reloads: the final store
+   re-encodes and decodes to a store that agrees on every observable (so no
+   reload in such a sequence can fail), every accepted secret is still looked
+   up exactly, at most 48 buckets are held and the encoding has exactly
+   9 + 40*lenBuckets (<= 1929) bytes. *)
+Theorem C06_codec_roundtrip :
+  forall (ops : list sop) (st : Exec.bstore),
+    run_ops new_store ops = Some st ->
+    Forall (fun h => length h = 32%nat) (adds_of ops) ->
+    N.of_nat (length (adds_of ops)) <= start_index ->
+    (exists st', Exec.decode (Exec.encode st) = Some st' /\ store_eq Exec.bytes st st') /\
+    (forall i h, nth_error (adds_of ops) i = Some h ->
+                 Exec.b_lookup st (N.of_nat i) = Some h) /\
+    len_buckets st <= 48 /\
+    N.of_nat (length (Exec.encode st)) = 9 + 40 * len_buckets st.
+Proof. exact codec_roundtrip. Qed.
